@@ -733,6 +733,22 @@ func enumerate(r *vk.Run) {
 			c.Map, c.NilMap = nil, true
 			cases = append(cases, c)
 		}
+		// times of day a caller can construct although no clock shows them (NewHHmm takes any two
+		// integers) and dates before year 1: not among the reasons for rejecting a call, so the call
+		// goes out (what the unencodable field carries on the wire is not C07's business)
+		for _, pos := range []string{"1", "2", "3"} {
+			for _, se := range [][]int{{-60, 0}, {-60, -60}, {-1, 0}, {1441, 1441}, {1500, 1500}, {1439, 5999}, {0, 1500}} {
+				c := baseline("SetTimeProfile", cfgBroadcast, baseID)
+				c.Segs = baseSegments()
+				c.Segs[pos] = se
+				cases = append(cases, c)
+			}
+		}
+		for _, from := range [][]int{{-1, 1, 1}, {-9999, 12, 31}, {10000, 1, 1}} {
+			c := baseline("SetTimeProfile", cfgBroadcast, baseID)
+			c.From = from
+			cases = append(cases, c)
+		}
 		cases = dedupCases(cases)
 		runCases(r, "SetTimeProfile/dates-segments-weekdays", cases)
 
